@@ -26,7 +26,9 @@ pub enum Op {
     RollbackClosed { c: u16 },
     TxClosed { c: u16, tx: TxSpec },
     /// public `append_block`: 0 signed by the node, 1 unsigned, 2 signed by an unregistered key,
-    /// 3 proposer+signature of an unregistered key, 4 wrong height, 5 wrong prev_hash, 6 wrong tx_root
+    /// 3 proposer+signature of an unregistered key, 4 wrong height, 5 wrong prev_hash, 6 wrong tx_root,
+    /// 7 signed by the node while tx_root was still zero (append computes a zero root itself): either
+    /// refused, or accepted as a block that verifies
     Append { kind: u8, txs: Vec<TxSpec> },
 }
 
@@ -57,7 +59,7 @@ pub fn strategy(t: Tier) -> impl Strategy<Value = SeqCase> {
         1 => any::<u16>().prop_map(|c| Op::CommitClosed { c }),
         1 => any::<u16>().prop_map(|c| Op::RollbackClosed { c }),
         1 => (any::<u16>(), tx_strategy()).prop_map(|(c, tx)| Op::TxClosed { c, tx }),
-        1 => (0u8..7, prop::collection::vec(tx_strategy(), 0..3)).prop_map(|(kind, txs)| Op::Append { kind, txs }),
+        1 => (0u8..8, prop::collection::vec(tx_strategy(), 0..3)).prop_map(|(kind, txs)| Op::Append { kind, txs }),
     ];
     let max_ops = t.pick(30usize, 40usize);
     (
@@ -470,7 +472,9 @@ impl Run {
     fn append(&mut self, ctx: &mut CaseCtx, kind: u8, txs: &[TxSpec], strict_first: bool) -> Result<(), Fail> {
         let h0 = self.node.chain.height();
         let forged = matches!(kind, 1..=3);
-        if forged && h0 == 0 && strict_first {
+        // a signature made over a zero tx_root does not cover the root append computes: at height 1,
+        // where append checks no signature (recorded first-block finding), it is just another bad one
+        if (forged || kind == 7) && h0 == 0 && strict_first {
             ctx.label("skip:forged-first-block");
             return Ok(());
         }
@@ -490,6 +494,12 @@ impl Run {
                 blk.header.signature = foreign.sign(&signing_bytes(&blk.header));
                 blk
             },
+            7 => {
+                let mut blk = b.build();
+                blk.header.tx_root = [0u8; 32];
+                blk.header.signature = me.sign(&signing_bytes(&blk.header));
+                blk
+            },
             _ => {
                 let mut blk = b.build();
                 match kind {
@@ -502,15 +512,15 @@ impl Run {
             },
         };
         let r = self.node.chain.append_block(block);
-        let name = ["signed", "unsigned", "foreign-signature", "foreign-proposer", "wrong-height", "wrong-prev", "wrong-tx-root"][kind as usize % 7];
+        let name = ["signed", "unsigned", "foreign-signature", "foreign-proposer", "wrong-height", "wrong-prev", "wrong-tx-root", "signed-over-zero-root"][kind as usize % 8];
         match r {
             Ok(hash) => {
                 ctx.label(format!("append:{name}:ok"));
-                if kind >= 4 {
+                if (4..=6).contains(&kind) {
                     ctx.fail(format!("seq:append:{name}:accepted"), "append_block accepted a structurally invalid block")?;
                     return Ok(());
                 }
-                if forged {
+                if forged || (kind == 7 && h0 == 0) {
                     if h0 == 0 {
                         // the block is in; the statement requires verify() to hold on every chain built through the interface
                         if self.node.chain.verify().is_err() {
